@@ -1,6 +1,6 @@
 """Executable contracts for the cryptographic layer as the Data Secure state machine sees it."""
 
-from pyvc.api import nondet, nondet_bytes
+from pyvc.api import ghost, nondet, nondet_bytes
 from xknx.exceptions import DataSecureError
 from xknx.secure.data_secure_asdu import SecureData
 
@@ -10,6 +10,7 @@ def get_plain_apdu_contract(self, key, scf, address_fields_raw, address_type, fr
     plain APDU comes back. (That it fails for every tampered input is C16; the bytes are C15/C19.)"""
     if nondet(2) == 0:
         raise DataSecureError("Data Secure MAC verification failed (contract)")
+    ghost("mac_verified").append(1)
     return nondet_bytes(255)
 
 
